@@ -9,6 +9,15 @@ from .core import Canary, unparse
 
 def _find_func(tree, q):
     parts = q.split('.')
+    if parts[-1] == 'setter':
+        cls = _find_func(tree, '.'.join(parts[:-2])) if len(parts) > 2 else tree
+        if cls is None:
+            return None
+        for n in cls.body:
+            if isinstance(n, ast.FunctionDef) and n.name == parts[-2] and \
+                    any(isinstance(d, ast.Attribute) and d.attr == 'setter' for d in n.decorator_list):
+                return n
+        return None
     body = tree.body
     node = None
     for i, p in enumerate(parts):
